@@ -162,6 +162,16 @@ def read_script(js: str):
 # ---------------------------------------------------------------------------
 # gamma
 # ---------------------------------------------------------------------------
+def mkdep(label, H):
+    """label = name or name@version"""
+    name, _, ver = label.partition("@")
+    return H.HTMLDependency(name, ver or "1.0")
+
+
+def deplabel(d):
+    return d.name if str(d.version) == "1.0" else f"{d.name}@{d.version}"
+
+
 class JTfy:
     def __init__(self, mode, content, payload, H):
         self.mode, self.content, self.payload, self._H = mode, content, payload, H
@@ -172,7 +182,7 @@ class JTfy:
             return H.Tag("span", self.content.tagify(), _add_ws=False)
         if self.mode == "str":
             return self.payload
-        return H.HTMLDependency(self.payload, "1.0")
+        return mkdep(self.payload, H)
 
 
 def conc_val(val, H, J, salt):
@@ -206,7 +216,7 @@ def build(x, H, J, salt=0):
     if f == "S":
         return uncps(x["v"])
     if f == "D":
-        return H.HTMLDependency(uncps(x["name"]), "1.0")
+        return mkdep(uncps(x["name"]), H)
     if f == "M":
         return H.MetadataNode()
     kids = [build(k, H, J, salt + 1) for k in x["kids"]]
@@ -297,7 +307,7 @@ class C20(Prop):
         "and comma-free)",
         "strings are free of backslashes and line breaks (the statement's scope); jsx() expressions and HTML() are not used as children",
         "style prop strings are of the form k:v;k:v with distinct keys",
-        "dependencies surfaced are compared as a set of names (the result's get_dependencies() resolves by name)",
+        "surfaced metadata is read off the children of the emitted <script> element and compared as a multiset of name@version labels",
     ]
 
     def model_runs(self, tier):
@@ -360,7 +370,7 @@ class C20(Prop):
         if kind == "E":
             return nd("S", v="")
         if kind == "D":
-            return nd("D", name=rnd.choice(["d1", "d2", "d3"]))
+            return nd("D", name=rnd.choice(["d1", "d2", "d3", "d1@2.0", "d1@0.9", "d2@1.10"]))
         if kind == "M":
             return nd("M")
         kids = [self.rnode(rnd, depth + 1, None, under_f or kind == "F") for _ in range(rnd.randint(0, 3))] if depth < 4 else []
@@ -447,7 +457,9 @@ class C20(Prop):
                 src = d.source_path_map()["source"]
                 ok = ok and all(os.path.isfile(os.path.join(src, s["src"])) for s in d.script)
             conv["reactFiles"] = bool(ok and len(deps) >= 2)
-            conv["deps"] = [cps(n) for n in names[2:]]
+            # every metadata node carried by the script element itself (before any resolution by name)
+            carried = [c for c in out.children if isinstance(c, H.HTMLDependency)]
+            conv["deps"] = [cps(deplabel(d)) for d in carried[2:]]
             conv["nbare"] = sum(1 for c in out.children if type(c) is H.MetadataNode)
         recs.append(conv)
         return recs
